@@ -26,7 +26,7 @@ CONCRETE = {
     's_esc': 'q"\\\n\t\u0000\u001fé中\U0001F600/',
     'a_empty': [], 'a_1': [1], 'a_deep': _DEEP_ARR, 'a_deep64': _DEEP64,
     'o_empty': {}, 'o_a': {'a': 1}, 'o_deep': _DEEP_OBJ,
-    'm_ok': 'ok', 'm_one': 'one', 'm_perr': 'perr', 'm_exc': 'exc', 'm_unk': 'nope',
+    'm_ok': 'ok', 'm_one': 'one', 'm_perr': 'perr', 'm_exc': 'exc', 'm_unk': 'nope', 'm_int': 'int',
     'mw_short': 'mw_short', 'mw_rewritten': 'mw_rewritten',
     'r_none': {'a': None, 'b': None}, 'r_a1': {'a': 1, 'b': None}, 'r_deep': {'a': 1, 'b': _DEEP_ARR[1]}, 'r_deep64': {'a': 1, 'b': _DEEP64[1]},
     'r_one_a1': {'a': 1, 'only': 'one'},
